@@ -224,6 +224,10 @@ def gen_api_spec(seed, index, nhs, tier):
 
     threaded = (not fam['big']) and r.random() < 0.6
     nthreads = r.choice([2, 2, 2, 3, 3, 4]) if threaded else 1
+    sweep_sym = bool(fam.get('sweep')) and r.random() < 0.5
+    if sweep_sym:
+        # the other half of a sweep family's runs: ONE of its modules on two threads at once, from a cold process
+        threaded, nthreads = True, 2
     sources, names = fam['sources'], fam['names']
     lists = [(list(v) if isinstance(v, list) else (dict((k, list(x)) for k, x in v.items()) if isinstance(v, dict) else v)) for v in fam['lists']]
     opts = [list(o) for o in fam['opts']]
@@ -235,11 +239,16 @@ def gen_api_spec(seed, index, nhs, tier):
     else:
         ncalls = r.choice([1, 2, 3, 4, 6, 8, 12, 20, 30, 45])
     seq = [r.randrange(len(templates)) for _ in range(ncalls)]
-    if fam.get('sweep'):
+    if fam.get('sweep') and not sweep_sym:
         seq = list(range(len(templates)))
         r.shuffle(seq)
         ncalls = len(seq)
         meta['sweep'] = True
+    elif sweep_sym:
+        m = r.randrange(len(templates))
+        seq = [m, m] if r.random() < 0.7 else [m, m, r.randrange(len(templates))]
+        ncalls = len(seq)
+        meta['sweep_symmetric'] = True
     if threaded and r.random() < 0.35:
         # symmetric load: every thread runs the same call (the most direct way for two calls to collide)
         seq = [seq[0]] * ncalls
@@ -264,6 +273,8 @@ def gen_api_spec(seed, index, nhs, tier):
             opts.append(list(opts[c['ra']['slot']]))
             c['ra'] = {'slot': len(opts) - 1}
         c['th'] = r.randrange(nthreads) if threaded else 0
+        if sweep_sym:
+            c['th'] = len(calls) % 2
         calls.append(c)
     if threaded:
         for t in range(nthreads):
@@ -303,6 +314,8 @@ def gen_api_spec(seed, index, nhs, tier):
     }
     if threaded:
         x = rs.random()
+        if sweep_sym and x < 0.75:
+            x = 0.99       # mostly the sync policy for the symmetric cold-start runs
         if x < 0.25:
             policy = {'name': 'rand', 'p': rs.choice([1e-3, 1e-2, 1e-2, 0.1, 0.1, 0.5])}
         elif x < 0.38:
@@ -315,7 +328,7 @@ def gen_api_spec(seed, index, nhs, tier):
             # two threads brought to the same phase, then interleaved step by step inside it
             policy = {'name': 'sync', 'k': rs.randrange(1, 22), 'q': rs.choice([1.0, 1.0, 0.5, 0.2]),
                       'burst': rs.choice([300, 2000, 2000, 10000, 40000])}
-            if rs.random() < 0.45:
+            if rs.random() < (0.8 if sweep_sym else 0.45):
                 # lockstep by phase over the whole call: every phase is entered together and interleaved finely
                 policy['all'] = True
                 policy['q'] = rs.choice([0.5, 0.3, 0.1, 0.05])
